@@ -361,12 +361,36 @@ func c25Gen(r *Rng, tier string, n int) []Case {
 	}
 	runtime.GOMAXPROCS(old)
 
-	// 4. thorough: the concurrent part under the race detector
-	var raceFail []string
-	if tier != "quick" {
-		raceFail = c25Race(jobs)
+	// known-finding signatures per job
+	kf := make([][]string, J)
+	for i, j := range jobs {
+		if c25HasCode(j.Text) {
+			kf[i] = append(kf[i], c25KFChroma)
+		}
+		if sigSeen[i] {
+			kf[i] = append(kf[i], c25KFSeen)
+		}
+		if sigTies[i] {
+			kf[i] = append(kf[i], c25KFTies)
+		}
+		if c25HasLiteralSubstitution(j.Text) {
+			kf[i] = append(kf[i], c25KFVars)
+		}
 	}
 
+	// 4. thorough: the concurrent part under the race detector (a case of its own, never KF-tagged)
+	if tier != "quick" {
+		tagged := make([]bool, J)
+		for i := range jobs {
+			tagged[i] = len(kf[i]) > 0
+		}
+		out = append(out, Case{Coq: "CRuns 0 [] [] []", Class: "race-detector", Input: map[string]any{"jobs": J},
+			Impl: map[string]any{"binary": "harness/c25race built with go build -race -tags verif"}, ImplFail: c25Race(jobs, tagged)})
+	}
+
+	if len(fails) > 0 {
+		out = append(out, Case{Coq: "CRuns 0 [] [] []", Class: "child-process-failure", Input: map[string]any{"jobs": J}, ImplFail: fails})
+	}
 	for i, j := range jobs {
 		nl := func(xs []string) string {
 			ys := make([]string, len(xs))
@@ -405,22 +429,7 @@ func c25Gen(r *Rng, tier string, n int) []Case {
 		if strings.HasPrefix(ref[i], "ERR:") {
 			cs.Impl.(map[string]any)["error"] = ref[i]
 		}
-		if c25HasCode(j.Text) {
-			cs.KF = append(cs.KF, c25KFChroma)
-		}
-		if sigSeen[i] {
-			cs.KF = append(cs.KF, c25KFSeen)
-		}
-		if sigTies[i] {
-			cs.KF = append(cs.KF, c25KFTies)
-		}
-		if c25HasLiteralSubstitution(j.Text) {
-			cs.KF = append(cs.KF, c25KFVars)
-		}
-		if i == 0 {
-			cs.ImplFail = append(cs.ImplFail, fails...)
-			cs.ImplFail = append(cs.ImplFail, raceFail...)
-		}
+		cs.KF = kf[i]
 		out = append(out, cs)
 	}
 	return out
@@ -508,7 +517,7 @@ func in2json(in any) string { b, _ := json.Marshal(fmt.Sprint(in)); return strin
 
 // c25Race builds harness/c25race with -race against the same d2 tree and runs the concurrent part in
 // it; every data race report (or a failure to build/run) is returned as a runtime failure.
-func c25Race(jobs []c25Job) []string {
+func c25Race(jobs []c25Job, tagged []bool) []string {
 	exe, err := os.Executable()
 	if err != nil {
 		return []string{"race: " + err.Error()}
@@ -550,8 +559,15 @@ func c25Race(jobs []c25Job) []string {
 	} else if err != nil {
 		fails = append(fails, "race: run failed: "+err.Error()+": "+stderr.String())
 	}
-	if s := strings.TrimSpace(stdout.String()); strings.Contains(s, "MISMATCH") {
-		fails = append(fails, "race binary: "+s)
+	// digests differing under the race build: only for jobs that match no known-finding signature
+	for _, line := range strings.Split(stdout.String(), "\n") {
+		var p, gi, job int
+		var a, b string
+		if n, _ := fmt.Sscanf(line, "MISMATCH gomaxprocs=%d goroutine=%d job=%d %s != %s", &p, &gi, &job, &a, &b); n == 5 {
+			if job >= 0 && job < len(tagged) && !tagged[job] {
+				fails = append(fails, "race binary: "+line)
+			}
+		}
 	}
 	return fails
 }
